@@ -195,10 +195,9 @@ fn translate_head(
             ),
             Some(v) => Ok(Rc::new(v.with_loc(l.clone()))),
         },
-        SExp::Integer(l, i) => match prim_map.get(&u8_from_number(i.clone())) {
-            None => Ok(sexp.clone()),
-            Some(v) => Ok(Rc::new(v.with_loc(l.clone()))),
-        },
+        // A number in head position is an opcode, never the name of an operator
+        // (61 is '%', not the character '=').
+        SExp::Integer(_, _) => Ok(sexp.clone()),
         SExp::Cons(_l, _a, nil) => match nil.borrow() {
             SExp::Nil(_l1) => run(
                 allocator,
